@@ -581,7 +581,8 @@ def _t3(ctx: Context) -> None:
     for n in ins:
         ctx.must_pass("C13.T3", cfg, n, "key absent from the error map", gate_ok, desc="CoAP: a listener update only for items without an error entry")
         ctx.must_pass("C13.T3", cfg, n, "paired_read in char.perms", _perm_gate(ctx, cfg, PR), desc="CoAP: a listener update only for readable characteristics")
-    wr = [n for n, c in ctx.nodes_calling_name(cfg, "write_characteristics")]
+    # the write itself: the connection's write_characteristics, or - when that is written out in place - the batch post
+    wr = [n for n, c in ctx.nodes_calling_name(cfg, "write_characteristics")] or [n for n, c in ctx.nodes_calling_name(cfg, "post_all")]
     for c, _cc in ctx.nodes_calling_name(cfg, "_callback_listeners"):
         edges = []
         for w in wr:
@@ -695,6 +696,11 @@ def _k2(ctx: Context) -> None:
                     v = strip_sites(T.of(cfg, n, x.values[0]))
                     found = (n, v)
         ok = found is not None and found[1][0] == "sub" and found[1][1][0] == "iter" and found[1][2] == ("const", 2)
+        if not ok and found is not None and found[1][0] in ("glob", "cvar", "unknown"):
+            # the dict is built inside a comprehension (its value is the comprehension's own variable): what that variable
+            # ranges over is not followed here
+            ck.unknown("C13.K2", f"{q.rsplit('.', 2)[-2]}: the listener payload {{'value': ..}} is built inside a comprehension (`{found[0].text()[:60]}`): which value it carries is not decided", ctx.loc(f, found[0]))
+            continue
         ck.check("C13.K2", ok, f"{q.rsplit('.', 2)[-2]}: notifies {{(aid, iid): {{'value': <the written value>}}}}", f"{ctx.fkey(f)}:notify-shape",
                  f"{q.rsplit('.', 2)[-2]}: listener payload is {show(found[1], 80) if found else 'missing'}", f.loc())
 
